@@ -1,3 +1,4 @@
+import os
 """contract registry, Machine, and the per-contract verification driver."""
 import ast
 import importlib
@@ -456,6 +457,9 @@ def body_wrapper(body, results, fname, counter):
         try:
             return body(p)
         except Undecided as u:
+            if os.environ.get("PYVC_TB"):
+                import traceback
+                traceback.print_exc()
             results.append(Result("%s/path/p%d" % (fname, counter["path"]), "undecided", "", None, str(u)))
             return None
         except (PathEnd, Infeasible):
